@@ -63,7 +63,7 @@ def asm_block(name, n_ring=2, pitch=0.0040, dpin=0.0032, wire=0.0004, clr=0.0002
                 s += f"                convection_factor = {conv_factor}\n"
     if grid:
         s += ("        [[[SpacerGrid]]]\n            loss_coeff = 1.2\n            axial_positions = "
-              + ', '.join(str(g) for g in grid) + "\n")
+              + ', '.join(str(g) for g in grid) + (',' if len(grid) == 1 else '') + "\n")
     if pin_model == 'fuel':
         s += ("        [[[FuelModel]]]\n            gap_thickness = 0.0\n            clad_material   = ss316\n"
               "            r_frac   =  0.0, 0.33333, 0.66667\n            pu_frac  = 0.20,    0.20,    0.20\n"
